@@ -895,26 +895,51 @@ def py_alignments(points, hull, observer, ceiling):
 SIG_OBLIQUE = "C18:reorient:outside-45-degree-condition"
 
 
+def canonical_of(points, observer, ceiling):
+    """the numbering of the same eight points in which front/top/right-handed hold for this view (None if there is none)"""
+    for p in sym48():
+        Q = [points[p[i]] for i in range(8)]
+        try:
+            if oracle_orientation(Q, observer, ceiling)[0] is None:
+                return Q
+        except Exception:  # noqa: BLE001
+            continue
+    return None
+
+
 def cond45(points, hull, observer, ceiling):
-    """every outward hull triangle's normal is within 45 degrees of one of the six viewing directions: the sufficient
-    condition under which the alignment heuristic is proved to pick the two triangles of one geometric face
-    (C18_grouping_separation)"""
+    """the sufficient condition under which the alignment heuristic is proved to pick the two triangles of one geometric
+    face (C18_grouping_separation): every outward hull triangle's normal is within 45 degrees of the viewing direction of
+    ITS OWN face.  Decided on the canonical numbering of the block for this view (`hull` is ignored: the hull of the
+    canonical numbering is taken); True when nothing can be decided."""
     try:
-        al = py_alignments(points, hull, observer, ceiling)
+        from scipy.spatial import ConvexHull
+        C = canonical_of(points, observer, ceiling)
+        if C is None:
+            return True
+        hc = [[int(x) for x in sx] for sx in ConvexHull(_np().array(C)).simplices]
+        if len(hc) != 12:
+            return True
+        al = py_alignments(C, hc, observer, ceiling)
     except Exception:  # noqa: BLE001
         return True
     c45 = math.cos(math.pi / 4)
-    nt = len(hull)
-    return all(max(al[s][t] for s in ORDER) > c45 for t in range(nt))
+    for t, tri in enumerate(hc):
+        own = [sd for sd, f in HEX_FACES.items() if set(tri) <= set(f)]
+        if len(own) != 1:
+            return False
+        if al[own[0]][t] <= c45:
+            return False
+    return True
 
 
 def reorient_failure(points, observer, ceiling, hull, why):
     """replay dict of a failed re-orientation; failures outside the 45-degree condition carry the signature of the open
     finding (the greedy choice takes a triangle of an adjacent face), all others are violations of their own"""
     d = dict(kind="reorient", points=points, observer=observer, ceiling=ceiling, why=why)
-    if hull is not None and len(hull) == 12 and not cond45(points, hull, observer, ceiling):
+    if not cond45(points, hull, observer, ceiling):
         d["sig"] = SIG_OBLIQUE
-        d["why"] = why + " (a hull triangle's normal is more than 45 degrees off every viewing direction)"
+        d["why"] = why + " (a hull triangle's normal is more than 45 degrees off the viewing direction of its own face)"
     return d
 
 
@@ -1290,7 +1315,7 @@ class C18(Prop):
                     try:
                         from scipy.spatial import ConvexHull
                         hc = [[int(x) for x in sx] for sx in ConvexHull(_np().array(C)).simplices]
-                        if len(hc) == 12 and not cond45(C, hc, obs, cei):
+                        if not cond45(C, hc, obs, cei):
                             f_ind["sig"] = SIG_OBLIQUE
                     except Exception:  # noqa: BLE001
                         pass
